@@ -431,10 +431,11 @@ type unitSnapshot struct {
 	oblNames                     map[string]int
 	nbind                        int
 	exits                        int
+	nprobes                      int
 }
 
 func (u *Unit) snapshot() unitSnapshot {
-	s := unitSnapshot{ncmds: len(u.cmds), nfacts: len(u.facts), nobls: len(u.obls), nsites: len(u.closureSites), nbind: len(u.bindErrors)}
+	s := unitSnapshot{ncmds: len(u.cmds), nfacts: len(u.facts), nobls: len(u.obls), nsites: len(u.closureSites), nbind: len(u.bindErrors), nprobes: len(u.probes)}
 	s.declared = make(map[string]bool, len(u.declared))
 	for k, v := range u.declared {
 		s.declared[k] = v
@@ -452,6 +453,7 @@ func (u *Unit) restoreKeepCmds(s unitSnapshot) {
 	u.closureSites = u.closureSites[:s.nsites]
 	u.oblNames = s.oblNames
 	u.bindErrors = u.bindErrors[:s.nbind]
+	u.probes = u.probes[:s.nprobes]
 }
 
 func (u *Unit) restore(s unitSnapshot) {
@@ -462,6 +464,7 @@ func (u *Unit) restore(s unitSnapshot) {
 	u.declared = s.declared
 	u.oblNames = s.oblNames
 	u.bindErrors = u.bindErrors[:s.nbind]
+	u.probes = u.probes[:s.nprobes]
 }
 
 // loopEffects describes what a loop body (or callback) may change.
@@ -536,6 +539,12 @@ func (fr *Frame) execLoop(li *loopInfo, order []*ssa.BasicBlock, loops map[*ssa.
 	phiEntry := map[*ssa.Phi]Term{}
 	// havoc the loop-carried registers first (also for the speculative pass)
 	stPhi := stE.clone()
+	// the values carried around the loop may refer to objects allocated by earlier iterations: their well-formedness is
+	// stated against the allocation watermark of the loop head (aH >= the watermark before the loop), not against the
+	// watermark before the loop
+	aH := u.fresh("alloc", SInt)
+	u.assume(True, Ge(aH, stE.alloc))
+	stPhi.alloc = aH
 	for _, in := range head.Instrs {
 		phi, ok := in.(*ssa.Phi)
 		if !ok {
@@ -587,6 +596,12 @@ func (fr *Frame) execLoop(li *loopInfo, order []*ssa.BasicBlock, loops map[*ssa.
 	// 2. havoc
 	stH := stPhi.clone()
 	fr.applyHavoc(stH, stE, eff)
+	if eff.allocs || eff.all {
+		u.assume(True, Le(aH, stH.alloc))
+	} else {
+		stH.alloc = stE.alloc
+		u.assume(True, Eq(aH, stE.alloc))
+	}
 	// inferred invariants for counters: phi = init + k*step with constant init and step > 0  ==> phi >= init
 	for _, in := range head.Instrs {
 		phi, ok := in.(*ssa.Phi)
@@ -645,6 +660,8 @@ func (fr *Frame) execLoop(li *loopInfo, order []*ssa.BasicBlock, loops map[*ssa.
 	// 4. invariants preserved
 	if len(back) > 0 {
 		stB := fr.enterBlock(head, back)
+		// vacuity probe: an iteration of the loop can be completed (its body is not dead under the assumed facts)
+		u.probes = append(u.probes, probe{pc: stB.pc, what: fmt.Sprintf("no iteration of loop %d in %s can be completed under the assumed facts (%s)", li.ord, fr.key, u.posString(blockPos(head)))})
 		for _, in := range head.Instrs {
 			phi, ok := in.(*ssa.Phi)
 			if !ok {
